@@ -36,6 +36,7 @@ type sctx struct {
 	b     []byte
 	s     string
 	hx    string
+	scope string // "" or "long"
 	as    string // attribute failures to this property (C10 re-uses the C01-C04 comparisons in longest mode)
 }
 
@@ -44,7 +45,7 @@ func (c *sctx) fail(prop, api, args, want, got string) {
 		prop = c.as
 	}
 	c.rep.Fail(&core.Failure{Prop: prop, API: api, Mode: c.mode, Pattern: c.pat, Hay: c.hx, Args: args,
-		Want: want, Got: got, Strat: c.strat, Fam: c.fam})
+		Want: want, Got: got, Strat: c.strat, Fam: c.fam, Scope: c.scope})
 }
 
 // guard runs fn and converts a panic into a failure of prop.
@@ -579,6 +580,7 @@ func runSearch(args []string) {
 	props := fs.String("props", "C01", "comma list of properties to decide")
 	report := fs.String("report", "report.json", "")
 	fails := fs.String("fail", "fail.ndjson", "")
+	longMax := fs.Int("long", 0, "auxiliary: also compare with regexp on pumped haystacks up to this many bytes (0 = off)")
 	fs.Parse(args)
 
 	pset := map[string]bool{}
@@ -761,6 +763,76 @@ func runSearch(args []string) {
 						calls += cp.c04(h.AL)
 					} else {
 						rep.Gap(fmt.Sprintf("posix %s on %x: spec %v regexp %v", posixPat, b, h.AL, wantP))
+					}
+				}
+			}
+		}
+		if *longMax > 0 {
+			// Auxiliary (regexp is the property's own reference): pumped members u.v^k.w of the record's 2-symbol haystacks, long enough
+			// to cross the vector block sizes, the 100-byte window of the adaptive strategy and the 4 KiB ASCII window.
+			for hi := range rec.Hs {
+				h := rec.Hs[hi].H
+				if len(h) != 2 || (rec.I+h[0]*5+h[1])%2 != 0 {
+					continue
+				}
+				for li, n := range []int{20, 70, 150, 600, 4200} {
+					if n > *longMax {
+						continue
+					}
+					var u, v, w []int
+					switch (li + h[0]) % 4 {
+					case 0:
+						u, v, w = nil, h[:1], h[1:]
+					case 1:
+						u, v, w = h[:1], h[1:], nil
+					case 2:
+						u, v, w = nil, h, nil
+					default:
+						u, v, w = h[1:], []int{h[1], h[0]}, h
+					}
+					ub, vb, wb := core.HayBytes(u), core.HayBytes(v), core.HayBytes(w)
+					b := append([]byte{}, ub...)
+					for len(b) < n {
+						b = append(b, vb...)
+					}
+					b = append(b, wb...)
+					lc := &sctx{rep: rep, props: pset, pat: pat, fam: rec.Fam, strat: strat, mode: "first", cg: cg, eng: eng, nc: rec.NC, b: b, s: string(b), scope: "long",
+						hx: core.Hex(ub) + "|" + core.Hex(vb) + "*|" + core.Hex(wb) + fmt.Sprintf("|%d", len(b))}
+					all := std.FindAllSubmatchIndex(b, -1)
+					var first []int
+					if len(all) > 0 {
+						first = all[0]
+					}
+					cases++
+					if pset["C01"] {
+						calls += lc.c01(first != nil, 0)
+					}
+					if pset["C02"] {
+						if first == nil {
+							calls += lc.c02(nil)
+						} else {
+							calls += lc.c02(first[:2])
+						}
+					}
+					if pset["C03"] {
+						calls += lc.c03(first)
+					}
+					if pset["C04"] {
+						calls += lc.c04(all)
+					}
+					if pset["C11"] {
+						calls += lc.c11()
+					}
+					if pset["C10"] {
+						ll := *lc
+						ll.cg, ll.mode, ll.as = cgL, "longest", "C10"
+						allL := stdL.FindAllSubmatchIndex(b, -1)
+						var fl []int
+						if len(allL) > 0 {
+							fl = allL[0]
+						}
+						calls += ll.c03(fl)
+						calls += ll.c04(allL)
 					}
 				}
 			}
